@@ -17,29 +17,29 @@ func ConvertTensorDtype(t tensor.Tensor, newType int32) (tensor.Tensor, error) {
 		newBacking any
 	)
 
-	backing := IfScalarToSlice(t.Data())
+	backing := t.Data()
 
 	switch t.Dtype() {
 	case tensor.Float32:
-		newBacking, err = convertBacking(backing.([]float32), newType)
+		newBacking, err = convertBacking(backingAsSlice[float32](backing), newType)
 	case tensor.Float64:
-		newBacking, err = convertBacking(backing.([]float64), newType)
+		newBacking, err = convertBacking(backingAsSlice[float64](backing), newType)
 	case tensor.Int8:
-		newBacking, err = convertBacking(backing.([]int8), newType)
+		newBacking, err = convertBacking(backingAsSlice[int8](backing), newType)
 	case tensor.Int16:
-		newBacking, err = convertBacking(backing.([]int16), newType)
+		newBacking, err = convertBacking(backingAsSlice[int16](backing), newType)
 	case tensor.Int32:
-		newBacking, err = convertBacking(backing.([]int32), newType)
+		newBacking, err = convertBacking(backingAsSlice[int32](backing), newType)
 	case tensor.Int64:
-		newBacking, err = convertBacking(backing.([]int64), newType)
+		newBacking, err = convertBacking(backingAsSlice[int64](backing), newType)
 	case tensor.Uint8:
-		newBacking, err = convertBacking(backing.([]uint8), newType)
+		newBacking, err = convertBacking(backingAsSlice[uint8](backing), newType)
 	case tensor.Uint16:
-		newBacking, err = convertBacking(backing.([]uint16), newType)
+		newBacking, err = convertBacking(backingAsSlice[uint16](backing), newType)
 	case tensor.Uint32:
-		newBacking, err = convertBacking(backing.([]uint32), newType)
+		newBacking, err = convertBacking(backingAsSlice[uint32](backing), newType)
 	case tensor.Uint64:
-		newBacking, err = convertBacking(backing.([]uint64), newType)
+		newBacking, err = convertBacking(backingAsSlice[uint64](backing), newType)
 	default:
 		return nil, ErrConversionInvalidType(t.Dtype(), newType)
 	}
@@ -49,6 +49,18 @@ func ConvertTensorDtype(t tensor.Tensor, newType int32) (tensor.Tensor, error) {
 	}
 
 	return tensor.New(tensor.WithShape(t.Shape()...), tensor.WithBacking(newBacking)), nil
+}
+
+// backingAsSlice returns the backing of a tensor as a slice, also when the tensor is a
+// scalar (in which case its backing is a single value).
+func backingAsSlice[B Number](backing any) []B {
+	if scalar, ok := backing.(B); ok {
+		return []B{scalar}
+	}
+
+	slice, _ := backing.([]B)
+
+	return slice
 }
 
 func convertBacking[B Number](backing []B, dataType int32) (any, error) {
